@@ -887,7 +887,9 @@ class BaseTable(object):
 
     def __getattr__(self, attr):
         reader = self.__dict__.get("reader")
-        if reader:
+        # Special-method probes (e.g. copy.deepcopy looking for __deepcopy__) must
+        # not trigger decompilation of a lazily loaded table.
+        if reader and attr[:2] != "__":
             del self.reader
             font = self.font
             del self.font
